@@ -9,7 +9,7 @@
 //     (`w`: rows changed and committed), read-only (`r`) or rolled back (`a`),
 //     using SQLite's own total_changes() counter — this is what ties the
 //     operation-shape table of Model/Txn.lean to the code;
-//   - a hook that runs at the k-th statement point *instead of failing it*
+//   - a hook that runs at every statement point (nothing fails)
 //     (process-death variant: the harness copies db/-wal/-shm at that instant).
 //
 // Statement points: BeginTx, Prepare, Exec, Query on the connection, Exec and
@@ -42,7 +42,7 @@ type Injector struct {
 	mu      sync.Mutex
 	armed   bool
 	at      int
-	hook    func()
+	hook    func(idx int)
 	n       int
 	fired   bool
 	where   string
@@ -87,7 +87,7 @@ func lookup(dsn string) *Injector {
 	return nil
 }
 
-func (i *Injector) reset(at int, hook func()) {
+func (i *Injector) reset(at int, hook func(idx int)) {
 	i.mu.Lock()
 	defer i.mu.Unlock()
 	i.armed, i.at, i.hook, i.n, i.fired, i.where, i.query = true, at, hook, 0, false, "", ""
@@ -100,9 +100,9 @@ func (i *Injector) Arm(k int) { i.reset(k, nil) }
 // Count records points and transactions without injecting anything.
 func (i *Injector) Count() { i.reset(-1, nil) }
 
-// Hook makes the k-th statement point call fn (on the goroutine issuing the
-// call, before the call reaches SQLite) and then proceed normally.
-func (i *Injector) Hook(k int, fn func()) { i.reset(k, fn) }
+// Hook calls fn at every statement point with the point's index (on the
+// goroutine issuing the call, before the call reaches SQLite); nothing fails.
+func (i *Injector) Hook(fn func(idx int)) { i.reset(-1, fn) }
 
 // Result is what was seen between Arm/Count/Hook and Disarm.
 type Result struct {
@@ -134,6 +134,11 @@ func (i *Injector) point(kind byte, name, query string) error {
 	idx := i.n
 	i.n++
 	i.points = append(i.points, kind)
+	if hook := i.hook; hook != nil {
+		i.mu.Unlock()
+		hook(idx)
+		return nil
+	}
 	if idx == i.at && !i.fired {
 		i.fired = true
 		i.where = name
@@ -141,12 +146,7 @@ func (i *Injector) point(kind byte, name, query string) error {
 			query = query[:48]
 		}
 		i.query = strings.Join(strings.Fields(query), "_")
-		hook := i.hook
 		i.mu.Unlock()
-		if hook != nil {
-			hook()
-			return nil
-		}
 		return ErrInjected
 	}
 	i.mu.Unlock()
